@@ -42,7 +42,6 @@ var c16AssertAllowed = map[string]string{
 	"(*flows/definition.flow).MarshalJSON/(*flows/definition.node)#2":                                         c16OwnImplReason,
 }
 var c16SliceAllowed = map[string]string{
-	"flows/definition/legacy/expressions.fixLookups/[1:]":           "argument is a match of numericLookupRegex `\\.\\d+\\w*`, at least two bytes",
 	"flows/definition/legacy/expressions.MigrateStringLiteral/[1:]": "only called from VisitStringLiteral with the text of a STRING token, which starts and ends with a double quote",
 	"(*flows/definition/legacy.Translations).UnmarshalJSON/[0]":     "encoding/json never calls UnmarshalJSON with empty input",
 	"(*flows/definition/legacy.StringOrNumber).UnmarshalJSON/[0]":   "encoding/json never calls UnmarshalJSON with empty input",
